@@ -167,13 +167,88 @@ def s10_windows(ctx):
     return res
 
 
-STREAMS = [s10_windows]
+def s10_stacking(ctx):
+    """deterministic sweep of the stacking window: alongside length x orientation x start position x map offset x threshold"""
+    from shapely.geometry import LineString, Polygon
+
+    res = StreamResult("S10-stacking", rule="a trace planted alongside a longer one at 0.5 x the stacking buffer for 1.3 / 1.6 / 1.9 x the overlap-detection length (inside the "
+                       "window: must be STACKED TRACES) or 0.6 x (clearly below: must not), or for 1.6 x at 1.3 x the buffer (clearly outside: must not); 8 orientations "
+                       "incl. axis-parallel and 45 degrees x 3 start positions x offsets 0 / 1e3 / 1e7 x thresholds 0.01 / 0.001; the quick tier takes a seeded third; "
+                       "non-trivial = placement inside the window")
+    rng = rng_for(ctx.seed, "S10k")
+    cases = []
+    for t in (0.01, 0.001):
+        D, B = 50.0 * t, 5.0 * M * t
+        for offset in (0.0, 1.0e3, 1.0e7):
+            for ang in (0.0, 17.0, 30.0, 45.0, 61.0, 90.0, 118.0, 163.0):
+                for along, sepk, inside in ((1.3, 0.5, True), (1.6, 0.5, True), (1.9, 0.5, True), (0.6, 0.5, False), (1.6, 1.3, False)):
+                    for shift in (0.37, 1.21, 2.83):
+                        if ctx.tier == "quick" and rng.random() > 0.34:
+                            continue
+                        ux, uy = math.cos(math.radians(ang)), math.sin(math.radians(ang))
+                        nx, ny = -uy, ux
+                        P = lambda a, n: (offset + a * ux + n * nx, offset + a * uy + n * ny)  # noqa: E731
+                        target = [P(shift * D, 0.0), P((shift + along) * D, 0.0)]
+                        planted = [P(-1.0 * D, sepk * B), P(6.0 * D, sepk * B)]
+                        half = 20 * D
+                        area = [(offset - half, offset - half), (offset - half, offset + half), (offset + half, offset + half), (offset + half, offset - half), (offset - half, offset - half)]
+                        cases.append({"stream": "S10-stacking", "t": t, "offset": offset, "angle": ang, "along_over_D": along, "sep_over_B": sepk, "shift": shift, "inside": inside,
+                                      "geoms": [target, planted], "area": area})
+    args = [([LineString(g).wkt for g in c["geoms"]], c["t"], Polygon(c["area"]).wkt) for c in cases]
+    with mp.get_context("fork").Pool(16, maxtasksperchild=32) as pool:
+        outs = pool.map(validate, args, chunksize=4)
+    for c, errs in zip(cases, outs):
+        d = _judge_stacking(c, errs)
+        res.evaluations += 1
+        res.nontrivial += int(c["inside"])
+        key = f"offset={c['offset']:g}_{'inside' if c['inside'] else 'outside'}"
+        res.distribution[key] = res.distribution.get(key, 0) + 1
+        if d is not None:
+            res.disagreements.append(d)
+    res.samples = [{k: cases[0][k] for k in ("t", "offset", "angle", "along_over_D", "geoms")}] if cases else []
+    return res
+
+
+F24_KEY = "F24:short-partner-of-a-stack-not-flagged"
+
+
+def _judge_stacking(c, errs):
+    if isinstance(errs, str):
+        return Disagreement("S10-stacking", c, "completes", errs, True, "validation raised")
+    if c["inside"] and "STACKED TRACES" in errs[1] and "STACKED TRACES" not in errs[0] and c["along_over_D"] + 2 * 5.0 * M / 50.0 < 2.0:
+        # known finding F24: the SHORTER partner (shorter than two detection lengths minus the buffer ends) is flagged only when the
+        # first cut of the other trace at its buffer boundary happens to round inwards; the longer partner is always flagged
+        return Disagreement("S10-stacking", dict(c, finding_key=F24_KEY), "STACKED TRACES for both traces", errs, True,
+                            f"the shorter partner ({c['along_over_D']} x the detection length) of a stacked pair is not reported (the longer one is)")
+    # the short trace (row 0) runs alongside over its whole length: it must carry the verdict; the long one too when inside
+    got = ["STACKED TRACES" in e for e in errs]
+    if c["inside"] and not all(got):
+        return Disagreement("S10-stacking", c, "STACKED TRACES for both traces", errs, True,
+                            f"traces alongside within the stacking buffer for {c['along_over_D']} x the detection length are not reported (offset {c['offset']:g}, angle {c['angle']})")
+    if not c["inside"] and any(got):
+        return Disagreement("S10-stacking", c, "no STACKED TRACES", errs, True, "STACKED TRACES reported clearly outside the window")
+    return None
+
+
+STREAMS = [s10_windows, s10_stacking]
+
+
+def replay_finding(ctx, k):
+    import json
+
+    from harness.common import VERIF
+
+    case = json.loads((VERIF / k["witness"]).read_text())["case"]
+    d = replay(ctx, case["stream"], case)
+    return d is not None
 
 
 def replay(ctx, stream, case):
     from shapely.geometry import LineString, Polygon
 
     errs = validate(([LineString(g).wkt for g in case["geoms"]], case["t"], Polygon(case["area"]).wkt))
+    if stream == "S10-stacking":
+        return _judge_stacking(case, errs)
     res = StreamResult("replay")
     # re-judge through the stream logic on this single case
     c = dict(case)
